@@ -119,7 +119,6 @@ pub fn hist_cfg(property: &str, variant: &str) -> Option<HistCfg> {
         ("C18", "hist") => {
             c.w = [60, 8, 5, 10, 2, 3, 2, 5, 2];
             c.heap = true;
-            c.storage = true;
         }
         ("C20", "hist") => {
             c.w = [80, 4, 0, 3, 0, 3, 2, 4, 2];
@@ -509,8 +508,12 @@ pub fn plan(property: &str, tier: Tier, seed: u64) -> Option<Plan> {
             format!("{GEN_RULE}a populated region is replaced by from_str(to_string(region)) (serde_json) and later pushed to; reads, returned indices and Σused must equal the prediction and a twin universe that never serialised."),
         ),
         "C18" => (
-            hist_units("C18", "hist", tier.pick(4000, 20000), 640, seed, heapy, false),
-            format!("{GEN_RULE}at least two pushes; after every step used<=capacity per pair, Σused within the model's [payload+index lower bound, upper bound], monotone on push, and the clear rule."),
+            {
+                let mut u = hist_units("C18", "hist", tier.pick(4000, 20000), 640, seed, heapy, false);
+                u.extend(crate::engines::series::units("C18", !q));
+                u
+            },
+            format!("{GEN_RULE}at least two pushes; after every step used<=capacity per pair, Σused at least the model's payload+index lower bound, monotone on push, and the clear rule. Plus long series: 2^12 (thorough 2^14) pushes of small values, and 2^11 pushes of wide and of extreme values, into one default region of every composition with heap_size, alternating input forms, the same invariants after every push (lower bound at every power of two) and the clear rule at the end."),
         ),
         "C20" => (
             {
